@@ -7,8 +7,8 @@ Size(nm, L) == CASE nm = "1" -> 1 [] nm = "L-2" -> L - 2 [] nm = "L-1" -> L - 1 
 
 Layers1 == {[c |-> "A", n |-> n, s |-> "1"] : n \in SizeNames}
            \cup {[c |-> "I", n |-> n, s |-> s] : n \in SizeNames, s \in {"1", "L-1"}}
-Patterns == {[hs |-> hs, ks |-> ks, layers |-> ls] :
-               hs \in {"0", "1", "L-1", "L", "4L"}, ks \in {"1", "L-1", "L"},
+Patterns == {[hs |-> h[1], hk |-> h[2], ks |-> ks, layers |-> ls] :
+               h \in {<<"0", "std">>} \cup ({"1", "L-1", "L", "4L"} \X {"std", "aot"}), ks \in {"1", "L-1", "L"},
                ls \in {<<>>} \cup {<<a>> : a \in Layers1} \cup {<<a, b>> : a, b \in Layers1}}
 
 HS(p, L) == IF p.hs = "0" THEN 0 ELSE Size(p.hs, L)
